@@ -57,3 +57,9 @@ package nodeenrollment
 //@   ensures[* found] ret ==> exists i int :: 0 <= i && i < len(protos) && knownProto(protos[i])
 //@   ensures[* none] !ret ==> forall i int :: 0 <= i && i < len(protos) ==> !knownProto(protos[i])
 //@   loop 0 invariant[seen] 0 <= rangeindex + 1 && forall i int :: 0 <= i && i < rangeindex + 1 ==> !knownProto(protos[i])
+
+// ---------------------------------------------------------------- options.go (C03)
+//
+// The two clock-skew options configure exactly the value they are given (zero included).
+//@ func nodeenrollment.lemmaSkewOptions
+//@   ensures[C03 exact] err == nil && ret != nil && ret.WithNotBeforeClockSkew == nb && ret.WithNotAfterClockSkew == na
